@@ -348,6 +348,7 @@ def run(ctx):
             ctx.fail(fn + ':raises', 'raised %r' % (e,), case)
             ctx.case(case, nontrivial=True)
             return None
+        tie_variants(case)          # input-representation layer: the model comparison of this case is batched and comes later
         if not ctx.check(isinstance(out, tuple) and len(out) == (4 if peel else 2), fn + ':return-shape',
                          'expected a %d-tuple' % (4 if peel else 2), case):
             ctx.case(case, nontrivial=True)
@@ -453,6 +454,7 @@ def run(ctx):
         except Exception as e:
             ctx.fail(fn + ':raises', 'raised %r' % (e,), case)
             return
+        tie_variants(case)
         cor = [int(x) for x in cor]; kn = [int(x) for x in kn]
         ctx.case(case, nontrivial=any(cor))
         ctx.count('%s:n=%d' % (fn, n) if n <= 9 else '%s:n=10..30' % fn); ctx.count('%s:family:%s' % (fn, fam))
